@@ -30,11 +30,15 @@ pub struct Config {
     /// socket does), instead of one delivered chunk per read.
     #[serde(default)]
     pub coalesce: bool,
+    /// Only the waker of a task's most recent poll counts; wakes through wakers of earlier polls
+    /// are ignored (legal for an executor, fatal for a future that parks on a stale waker).
+    #[serde(default)]
+    pub strict_wakers: bool,
 }
 
 impl Default for Config {
     fn default() -> Self {
-        Config { select: SelectPolicy::PacketFirst, sweep: false, scribble: false, handles: 1, preset_ids: None, coalesce: false }
+        Config { select: SelectPolicy::PacketFirst, sweep: false, scribble: false, handles: 1, preset_ids: None, coalesce: false, strict_wakers: false }
     }
 }
 
